@@ -91,6 +91,7 @@ type Clause struct {
 	Loop  int    // invariants: 1-based loop ordinal
 	Src   string // file:line
 	Aux   bool
+	U     bool     // invariant of the unconditional pass (ginvariant / gloopinv)
 	Props []string // optional property override for this clause
 	// lemmas proved by induction: `induct v > low` — the obligation is the
 	// induction step ((v > low ==> body[v-1/v]) ==> body); well-founded because
@@ -189,6 +190,14 @@ type FuncContract struct {
 	Props     []string
 	Requires  []*Clause
 	Ensures   []*Clause
+	// Guarantees: postconditions verified WITHOUT the function's preconditions
+	// (in a second pass over the body) and therefore usable by callers at every
+	// call, also where a precondition could not be proved. Their loop
+	// invariants are the Invs with U set.
+	Guarantees []*Clause
+	Assumes   []*Clause // `assumes label: expr`: a fact about the function's result that callers may use
+	// at EVERY call (whether or not the preconditions were proved) and that is NOT
+	// verified against the body: a trusted clause on an otherwise verified contract
 	Invs      []*Clause
 	Asserts   []*Clause // assert N label: expr (checked at call ordinal N) — unused for now
 	Modifies  []string
@@ -214,6 +223,7 @@ type File struct {
 	Sorts     []string
 	Consts    []Var
 	Ghosts    []Var
+	GhostPkg  map[string]string // ghost -> package it models (the `package` line in force at its declaration)
 	Funcs     []*SpecFunc
 	Axioms    []*Clause
 	Lemmas    []*Clause
